@@ -13,7 +13,7 @@ rsync -a --exclude .git --exclude /tests --exclude /doc --exclude /po --exclude 
 ( cd $d && diff -ru /repo/src src --exclude='*.o' --exclude='*.lo' --exclude='.deps' --exclude='.libs' 2>/dev/null | grep -v '^Only in' | head -${MUT_DIFF_LINES:-30} )
 rc=0
 for id in "${ids[@]}"; do
-  VERIF_REPO=$d VERIF_EVIDENCE_DIR=/tmp/mut_evidence VERIF_REPLAY_DIR=/tmp/mut_replays /verif/check $id | grep -v '^KNOWN-FINDING' | tail -${MUT_OUT_LINES:-12}
+  VERIF_CACHE=$d/.verifcache VERIF_REPO=$d VERIF_EVIDENCE_DIR=$d/.evidence VERIF_REPLAY_DIR=/tmp/mut_replays/$name /verif/check $id | grep -v '^KNOWN-FINDING' | tail -${MUT_OUT_LINES:-12}
   r=${PIPESTATUS[0]}; echo "== $name $id exit=$r"; [ $r -ne 0 ] && rc=$r
 done
 rm -rf $d
